@@ -76,7 +76,7 @@ AXV = [0, 1, -1]
 # ------------------------------------------------------------------ lift.vmap
 @with_real_dicts
 def vmap_like_per_index(pa, split, sa, xa, oa, shared, x0, x1, x2, x3, x4, x5, c0, c1,
-                        k0, mutable, inout=False):
+                        k0, mutable, inout=False, nidx=3):
   """lift.vmap == calling the body once per index on the slices: 'params' along
   AXV[pa] (or shared when pa == 3), 'stats' along AXV[sa], 'consts' shared (axis
   None), argument x along xa (2 = broadcast), outputs stacked along oa; split rng
@@ -113,35 +113,36 @@ def vmap_like_per_index(pa, split, sa, xa, oa, shared, x0, x1, x2, x3, x4, x5, c
       vaxes['consts'] = None
     return L.vmap(body, variable_axes=vaxes, split_rngs={'params': bool(split)},
                   in_axes=x_axis, out_axes=oa,
-                  axis_size=N if x_axis is None else None)(scope, x)
+                  axis_size=nidx if x_axis is None else None)(scope, x)
 
-  # x: N per-index rows of 2
-  rows = [Arr([x0, x1], (2,)), Arr([x2, x3], (2,)), Arr([x4, x5], (2,))]
+  # x: nidx per-index rows of 2
+  rows = [Arr([x0, x1], (2,)), Arr([x2, x3], (2,)), Arr([x4, x5], (2,)),
+          Arr([x0 + x5, x1 - x4], (2,))][:nidx]
   x = rows[0] if x_axis is None else _stack(rows, x_axis)
   xi = lambda i: rows[0] if x_axis is None else rows[i]
   with LiftEnv():
     y, vs = core.init(run)({'params': KEY}, x)
     vs = core.unfreeze(vs)
     # init: every index initialises its own slice
-    wi = [(10 + (i if split else -1)) for i in range(N)]
+    wi = [(10 + (i if split else -1)) for i in range(nidx)]
     want_w = np.array([wi[0]] * 2) if p_axis is None else np.stack(
         [np.array([v] * 2) for v in wi], axis=p_axis)
     if not (np.asarray(vs['params']['w']).shape == want_w.shape and (
         np.asarray(vs['params']['w']) == want_w).all()):
       return False
-    want_c = _stack([Arr([xi(i).sum()] * 2, (2,)) for i in range(N)], s_axis)
+    want_c = _stack([Arr([xi(i).sum()] * 2, (2,)) for i in range(nidx)], s_axis)
     if not want_c.same(vs['stats']['c']):
       return False
     want_y = _stack([Arr([wi[i] * xi(i).sum(), 2 * xi(i).sum()], (2,))
-                     for i in range(N)], oa)
+                     for i in range(nidx)], oa)
     if not want_y.same(y):
       return False
     # rng: each index sees its own key iff the stream is split
-    if seen_keys[:N] != ([0, 1, 2] if split else [-1] * N):
+    if seen_keys[:nidx] != (list(range(nidx)) if split else [-1] * nidx):
       return False
     # apply on caller-chosen state
     phase['init'] = False
-    cs = [Arr([c0 + i, c1 - i], (2,)) for i in range(N)]
+    cs = [Arr([c0 + i, c1 - i], (2,)) for i in range(nidx)]
     vs['stats']['c'] = _stack(cs, s_axis)
     if shared:
       vs['consts'] = {'k': Arr([k0, k0 + 1], (2,))}
@@ -149,28 +150,28 @@ def vmap_like_per_index(pa, split, sa, xa, oa, shared, x0, x1, x2, x3, x4, x5, c
     out = core.apply(run, mutable=['stats'] if mutable else False)(vs, x)
     if mutable:
       y2, upd = out
-      new_c = [cs[i] + xi(i).sum() for i in range(N)]
+      new_c = [cs[i] + xi(i).sum() for i in range(nidx)]
       if set(upd) != {'stats'} or not _stack(new_c, s_axis).same(upd['stats']['c']):
         return False
     else:
       y2, new_c = out, cs
     want_y2 = _stack([Arr([wi[i] * xi(i).sum(),
                            xi(i).sum() + new_c[i].at((0,)) + kk], (2,))
-                      for i in range(N)], oa)
+                      for i in range(nidx)], oa)
     return want_y2.same(y2)
 
 
 # ------------------------------------------------------------------ lift.scan
 @with_real_dicts
 def scan_like_loop(pa, split, use_carry_col, bcast, reverse, xa, oa, use_len,
-                   x0, x1, x2, c0, a0, k0, inout=False):
+                   x0, x1, x2, c0, a0, k0, inout=False, nidx=3):
   """lift.scan == the Python loop: 'params' holds one slice per iteration along
   AXV[pa], the 'acc' collection is carried (each iteration sees the previous
   update), 'consts' is broadcast, the carry is threaded, ys are stacked along oa in
   index order for either direction."""
   p_axis = pick(AXV, pa)
-  n = N
-  xvals = [x0, x1, x2]
+  n = nidx
+  xvals = [x0, x1, x2, x0 - x2][:n]
 
   def body(scope, carry, x):
     w = scope.param('w', lambda rng: np.array([10 + tok_id(rng)] * 2))
@@ -334,22 +335,24 @@ ASSUMPTIONS = (
 def obligations(tier):
   quick = tier == 'quick'
   F = qualnames(L.vmap, L.scan, L.pack, L.tree_map_rngs, nn.vmap, nn.scan)
-  v = I(-2, 2)
+  v = I(-2, 2) if quick else I(-4, 4)
+  nd = I(3, 3) if quick else I(2, 4)
   return [
       Ob('vmap_like_per_index', vmap_like_per_index,
          dict(pa=I(0, 3), split=B(), sa=I(0, 2), xa=I(0, 2), oa=I(0, 1), shared=B(),
               x0=v, x1=v, x2=v, x3=v, x4=v, x5=v, c0=v, c1=v, k0=v, mutable=B(),
-              inout=B()),
-         split=('pa', 'sa', 'xa'), timeout=600, funcs=F, per_path_timeout=60.0,
-         bounds='3 indices; params axis 0/1/-1/shared, stats axis 0/1/-1, argument '
+              inout=B(), nidx=nd),
+         split=('pa', 'sa', 'xa') if quick else ('pa', 'sa', 'xa', 'nidx'), timeout=600, funcs=F, per_path_timeout=60.0,
+         bounds='3 (thorough 2..4) indices; params axis 0/1/-1/shared, stats axis 0/1/-1, argument '
                 'axis 0/1/broadcast, out axis 0/1, a shared read-only collection, '
                 'split / un-split params stream, init then apply (mutable or not)'),
       Ob('scan_like_loop', scan_like_loop,
          dict(pa=I(0, 2), split=B(), use_carry_col=B(), bcast=B(), reverse=B(),
-              xa=I(0, 1), oa=I(0, 1), use_len=B(), x0=v, x1=v, x2=v, c0=v, a0=v, k0=v, inout=B()),
-         split=('pa', 'use_carry_col', 'bcast', 'reverse'), timeout=600, funcs=F,
+              xa=I(0, 1), oa=I(0, 1), use_len=B(), x0=v, x1=v, x2=v, c0=v, a0=v, k0=v, inout=B(), nidx=nd),
+         split=('pa', 'use_carry_col', 'bcast', 'reverse') if quick else (
+             'pa', 'use_carry_col', 'bcast', 'reverse', 'nidx'), timeout=600, funcs=F,
          per_path_timeout=60.0,
-         bounds='3 iterations; scanned params axis 0/1/-1, carried collection, '
+         bounds='3 (thorough 2..4) iterations; scanned params axis 0/1/-1, carried collection, '
                 'broadcast collection, reverse, explicit length without xs, in/out '
                 'axes 0/1, split / un-split stream'),
       Ob('linen_wrappers', linen_wrappers,
